@@ -181,6 +181,32 @@ static inline double cmb_wtdsummary_mean(const struct cmb_wtdsummary *wsp)
 }
 
 /**
+ * @brief The moment sums of a weighted summary carry the unit of the weights.
+ *        Rescale them so that the weights sum to the sample count. The sample
+ *        statistics computed from the result do not depend on the unit the
+ *        weights are expressed in, and equal the unweighted statistics when
+ *        all weights are equal.
+ *
+ * @memberof cmb_wtdsummary
+ * @param wsp Pointer to a weighted data summary.
+ * @return A data summary holding the normalized moment sums.
+ */
+static inline struct cmb_datasummary cmi_wtdsummary_normalized(const struct cmb_wtdsummary *wsp)
+{
+    cmb_assert_release(wsp != NULL);
+
+    struct cmb_datasummary ds = wsp->ds;
+    if (wsp->wsum > 0.0) {
+        const double f = (double)ds.count / wsp->wsum;
+        ds.m2 *= f;
+        ds.m3 *= f;
+        ds.m4 *= f;
+    }
+
+    return ds;
+}
+
+/**
  * @brief The weighted sample variance of the samples in the weighted data
  *        summary.
  *
@@ -193,7 +219,9 @@ static inline double cmb_wtdsummary_variance(const struct cmb_wtdsummary *wsp)
 {
     cmb_assert_release(wsp != NULL);
 
-    return cmb_datasummary_variance((struct cmb_datasummary *)wsp);
+    const struct cmb_datasummary ds = cmi_wtdsummary_normalized(wsp);
+
+    return cmb_datasummary_variance(&ds);
 }
 
 /**
@@ -209,7 +237,9 @@ static inline double cmb_wtdsummary_stddev(const struct cmb_wtdsummary *wsp)
 {
     cmb_assert_release(wsp != NULL);
 
-    return cmb_datasummary_stddev((struct cmb_datasummary *)wsp);
+    const struct cmb_datasummary ds = cmi_wtdsummary_normalized(wsp);
+
+    return cmb_datasummary_stddev(&ds);
 }
 
 /**
@@ -225,7 +255,9 @@ static inline double cmb_wtdsummary_skewness(const struct cmb_wtdsummary *wsp)
 {
     cmb_assert_release(wsp != NULL);
 
-    return cmb_datasummary_skewness((struct cmb_datasummary *)wsp);
+    const struct cmb_datasummary ds = cmi_wtdsummary_normalized(wsp);
+
+    return cmb_datasummary_skewness(&ds);
 }
 
 /**
@@ -241,7 +273,9 @@ static inline double cmb_wtdsummary_kurtosis(const struct cmb_wtdsummary *wsp)
 {
     cmb_assert_release(wsp != NULL);
 
-    return cmb_datasummary_kurtosis((struct cmb_datasummary *)wsp);
+    const struct cmb_datasummary ds = cmi_wtdsummary_normalized(wsp);
+
+    return cmb_datasummary_kurtosis(&ds);
 }
 
 /**
